@@ -84,6 +84,39 @@ Section Ext.
     induction (snd p) as [|k l IH]; cbn [existsb]; [reflexivity|].
     rewrite crypto_verify_pm_eq, IH. reflexivity.
   Qed.
+  Lemma key_loop_pm_eq s set l : forall last,
+    key_loop PM H ECP ECV EDV LIBV s set l last = key_loop powmod H ECP ECV EDV LIBV s set l last.
+  Proof.
+    induction l as [|k l IH]; intros last; cbn [key_loop]; [reflexivity|].
+    rewrite crypto_verify_pm_eq. unfold crypto_verify. cbv zeta. rewrite IH. reflexivity.
+  Qed.
+  Lemma verify_one_sig_code_pm_eq keys set s valid :
+    verify_one_sig_code_pm PM H ECP ECV EDV LIBV keys set s valid = verify_one_sig_code H ECP ECV EDV LIBV keys set s valid.
+  Proof.
+    unfold verify_one_sig_code, verify_one_sig_code_pm.
+    destruct (find _ keys) as [p|]; [|reflexivity]. cbv zeta.
+    repeat match goal with |- (if ?b then _ else _) = (if ?b then _ else _) => destruct b; [reflexivity|] end.
+    apply key_loop_pm_eq.
+  Qed.
+  Lemma sig_loop_ext (f g : list rr -> rrsig -> bool -> N) set l : (forall set s v, f set s v = g set s v) ->
+    forall last, sig_loop f set l last = sig_loop g set l last.
+  Proof.
+    intros E. induction l as [|sv t IHt]; intros last; cbn [sig_loop]; [reflexivity|]. rewrite E, IHt. reflexivity.
+  Qed.
+  Lemma verify_rrsig_code_pm_eq signer keys answer ns :
+    verify_rrsig_code_pm PM H ECP ECV EDV LIBV signer keys answer ns = verify_rrsig_code H ECP ECV EDV LIBV signer keys answer ns.
+  Proof.
+    unfold verify_rrsig_code, verify_rrsig_code_pm. destruct (is_nil keys); [reflexivity|].
+    unfold walk_code.
+    repeat match goal with |- (if ?b then _ else _) = (if ?b then _ else _) => destruct b; [reflexivity|] end.
+    induction (walk_keys signer answer ns) as [|r l IH]; cbn [groups_code]; [reflexivity|].
+    assert (G : forall r, group_code (fun set s v => verify_one_sig_code_pm PM H ECP ECV EDV LIBV keys set s v) signer answer ns r
+                        = group_code (fun set s v => verify_one_sig_code_pm powmod H ECP ECV EDV LIBV keys set s v) signer answer ns r).
+    { intros x. unfold group_code. cbv zeta.
+      repeat match goal with |- (if ?b then _ else _) = (if ?b then _ else _) => destruct b; [reflexivity|] end.
+      apply sig_loop_ext. intros set s v. rewrite verify_one_sig_code_pm_eq. reflexivity. }
+    rewrite G, IH. reflexivity.
+  Qed.
   Lemma verify_rrsig_pm_eq signer keys answer ns :
     verify_rrsig_pm PM H ECP ECV EDV LIBV signer keys answer ns = verify_rrsig H ECP ECV EDV LIBV signer keys answer ns.
   Proof.
